@@ -12,8 +12,8 @@
     elements.go/svg.go resolveUse + processNode (in-use id set)           → `process`
 
   Numbers are exact rationals.  Arcs: the transcendental part of addArc is not modelled; the model emits an
-  abstract `Op.arc` carrying the parameters the code *uses* (those of the FIRST argument group, see addArcFromA)
-  and the end point the last emitted cubic is set to (`points[5], points[6]` of the first group).
+  abstract `Op.arc` carrying the argument group's parameters and the end point the last emitted cubic is
+  set to (`points[5], points[6]` of the group); the implementation emits one or more cubics for it.
 -/
 namespace WR.C18
 
@@ -53,7 +53,7 @@ def consumeRest (seenDot : Bool) (prev : Char) : List Char → List Char × List
       else
         let r := consumeRest true c cs
         (c :: r.1, r.2)
-    else if c == '-' then
+    else if c == '-' || c == '+' then
       if prev == 'e' || prev == 'E' then
         let r := consumeRest seenDot c cs
         (c :: r.1, r.2)
@@ -252,25 +252,29 @@ def smoothCubeLoop (op : Char) : St → List (Pt × Pt) → St × List Op
     let res := smoothCubeLoop op { st with ctl := c2, cur := p, lastKey := op } r
     (res.1, Op.cubicTo ctl c2 p :: res.2)
 
-/-- the loop of case 'a','A'.  `findEllipseCenter` is called with the group's OWN radii and end point; it yields a
-    NaN centre when a radius is 0 or the group's end point is the current point; then `segs = int(NaN)+1` is
-    negative (amd64), no cubic is emitted and the current point stays.  Otherwise `addArc(c.points, …)` draws with
-    group 0's parameters and its last cubic ends at group 0's end point `e0` (arc `o`). -/
-def arcLoop (rel : Bool) (o : Op) (e0 : Pt) : St → List ArcArgs → St × List Op
+/-- the loop of case 'a','A' (`addArcFromA` per group).  A zero radius is a straight line to the end point.
+    Otherwise `findEllipseCenter` yields a NaN centre when the end point is the current point; then
+    `segs = int(NaN)+1` is negative (amd64), no cubic is emitted and the current point stays (it is the end
+    point).  Otherwise the cubics of `addArc` are emitted, the last one set to the group's end point. -/
+def arcLoop (rel : Bool) : St → List ArcArgs → St × List Op
   | st, [] => (st, [])
   | st, g :: r =>
     let e := if rel then padd st.cur g.p else g.p
-    if g.rx == 0 || g.ry == 0 || e == st.cur then arcLoop rel o e0 st r
+    if g.rx == 0 || g.ry == 0 then
+      let res := arcLoop rel { st with cur := e } r
+      (res.1, Op.lineTo e :: res.2)
+    else if e == st.cur then arcLoop rel st r
     else
-      let res := arcLoop rel o e0 { st with cur := e0 } r
-      (res.1, o :: res.2)
+      let res := arcLoop rel { st with cur := e } r
+      (res.1, Op.arc g.rx g.ry g.rot (g.large != 0) (g.sweep != 0) e :: res.2)
 
 /-- `addSeg` after `getPoints`: `op` is the command byte, `pts` the parsed numbers -/
 def addSeg (st : St) (op : Char) (pts : List Rat) : Except Err (St × List Op) :=
   if op == 'z' || op == 'Z' then
     if pts.length != 0 then .error .mismatch
     else if st.inPath then
-      .ok ({ st with cur := st.start, inPath := false, lastKey := op }, [.close])
+      -- inPath stays set: the next commands, if any, start a new sub-path at the same initial point
+      .ok ({ st with cur := st.start, lastKey := op }, [.close])
     else .ok ({ st with lastKey := op }, [])
   else if op == 'm' || op == 'M' then
     match pairs pts with
@@ -330,10 +334,7 @@ def addSeg (st : St) (op : Char) (pts : List Rat) : Except Err (St × List Op) :
   else if op == 'a' || op == 'A' then
     match sevens pts with
     | some (g0 :: r) =>
-      -- every group is drawn by `c.addArc(c.points, …)`: radii, rotation, flags and END POINT of group 0
-      let e0 := if op == 'a' then padd st.cur g0.p else g0.p
-      let o := Op.arc g0.rx g0.ry g0.rot (g0.large != 0) (g0.sweep != 0) e0
-      let res := arcLoop (op == 'a') o e0 st (g0 :: r)
+      let res := arcLoop (op == 'a') st (g0 :: r)
       .ok ({ res.1 with lastKey := op }, res.2)
     | _ => .error .mismatch
   else .ok ({ st with lastKey := op }, [])   -- "Ignoring svg command"
@@ -351,7 +352,7 @@ def runSegs (st : St) : List (Char × List Rat) → Except Err (St × List Op)
 
 /-! ## command segmentation (`parsePath`) -/
 
-def isCmd (c : Char) : Bool := c.isAlpha && c != 'e'
+def isCmd (c : Char) : Bool := c.isAlpha && c != 'e' && c != 'E'
 
 /-- (bytes before the first command byte, segments) -/
 def splitSegs : List Char → List Char × List (Char × List Char)
@@ -378,16 +379,16 @@ def parsePath (s : List Char) : Except Err (St × List Op) :=
 
 /-! ## basic shapes (elements.go) — lengths already resolved to user units -/
 
-/-- float32(4*(√2−1)/3) and float32(√π) as exact rationals -/
+/-- float32(4*(√2−1)/3) as an exact rational -/
 def arcToBezier : Rat := 9265801 / 16777216
-def sqrtPi : Rat := 14868421 / 8388608
 
-/-- `newRect`: `rx_`,`ry_` attribute presence; note `out.ry = parseValue(rx_)` -/
+/-- `newRect`: a missing rx / ry takes the other one's value -/
 def rectRadii (rx ry : Option Rat) : Rat × Rat :=
   match rx, ry with
   | none, none => (0, 0)
   | none, some b => (b, b)
-  | some a, _ => (a, a)
+  | some a, none => (a, a)
+  | some a, some b => (a, b)
 
 def rectOps (x y w h : Rat) (rxA ryA : Option Rat) : List Op :=
   if w ≤ 0 || h ≤ 0 then []
@@ -400,11 +401,11 @@ def rectOps (x y w h : Rat) (rxA ryA : Option Rat) : List Op :=
       let c1 := arcToBezier * rx
       let c2 := arcToBezier * ry
       [ .moveTo (x + rx, y), .lineTo (x + w - rx, y),
-        .cubicTo (x + w - rx + c1, y) (x + w, y + c2) (x + w, y + ry),
+        .cubicTo (x + w - rx + c1, y) (x + w, y + ry - c2) (x + w, y + ry),
         .lineTo (x + w, y + h - ry),
         .cubicTo (x + w, y + h - ry + c2) (x + w + c1 - rx, y + h) (x + w - rx, y + h),
         .lineTo (x + rx, y + h),
-        .cubicTo (x + rx - c1, y + h) (x, y + h - c2) (x, y + h - ry),
+        .cubicTo (x + rx - c1, y + h) (x, y + h - ry + c2) (x, y + h - ry),
         .lineTo (x, y + ry),
         .cubicTo (x, y + ry - c2) (x + rx - c1, y) (x + rx, y),
         .lineTo (x + rx, y) ]
@@ -412,8 +413,8 @@ def rectOps (x y w h : Rat) (rxA ryA : Option Rat) : List Op :=
 def ellipseOps (cx cy rx ry : Rat) : List Op :=
   if rx == 0 || ry == 0 then []
   else
-    let kx := rx / sqrtPi
-    let ky := ry / sqrtPi
+    let kx := rx * arcToBezier
+    let ky := ry * arcToBezier
     [ .moveTo (cx + rx, cy),
       .cubicTo (cx + rx, cy + ky) (cx + kx, cy + ry) (cx, cy + ry),
       .cubicTo (cx - kx, cy + ry) (cx - rx, cy + ky) (cx - rx, cy),
@@ -479,6 +480,29 @@ def resolveTransforms (pr : PAR) (width height : Rat) : Option VB → XF
       | .min => 0
     ⟨sx, sy, tx - vb.x * sx, ty - vb.y * sy⟩
 
+/-- `parsePreserveAspectRatio` (parser.go): split on single spaces; positions only from an 8-byte align -/
+def splitSpace : List Char → List (List Char)
+  | [] => [[]]
+  | c :: cs =>
+    match splitSpace cs with
+    | [] => [[c]]
+    | w :: ws => if c == ' ' then [] :: w :: ws else (c :: w) :: ws
+
+def alignOf (cs : List Char) : Align :=
+  let l := cs.map Char.toLower
+  if l == "mid".toList then .mid else if l == "max".toList then .max else .min
+
+def parsePAR (s : List Char) : PAR :=
+  let ws := splitSpace s
+  let align := ws.headD []
+  let pos := align != "none".toList && align.length == 8
+  { x := if pos then alignOf ((align.drop 1).take 3) else .min,
+    y := if pos then alignOf (align.drop 5) else .min,
+    none := align == "none".toList,
+    slice := match ws with
+      | _ :: w :: _ => w == "slice".toList
+      | _ => false }
+
 /-! ## `<use>` resolution (processNode + resolveUse), abstract tree -/
 
 inductive Node where
@@ -536,5 +560,21 @@ def follow (defs : List (Nat × Node)) : Nat → List Nat → Nat → Except PEr
     the harness generates distinct ids -/
 def process (defs : List (Nat × Node)) (root : Node) : Except PErr Drawn :=
   processWith (follow defs (defs.length + 1)) [] root
+
+/-! ## `SVGImage.guard` around applyClipPath / applyMask / drawMarkers (svg.go)
+
+  The same abstract tree: `.use (some k)` is a guarded reference with key `k` (kind + id), `.shape` a drawn
+  leaf, `defs` maps a key to the definition's content.  A reference whose key is in progress is ignored. -/
+
+def followGuard (defs : List (Nat × Node)) : Nat → List Nat → Nat → Except PErr Drawn
+  | 0 => fun _ _ => .error .fuel
+  | d + 1 => fun inProgress key =>
+    if inProgress.contains key then .ok []
+    else match lookupDef defs key with
+      | none => .ok []
+      | some content => processWith (followGuard defs d) (key :: inProgress) content
+
+def drawGuarded (defs : List (Nat × Node)) (root : Node) : Except PErr Drawn :=
+  processWith (followGuard defs (defs.length + 1)) [] root
 
 end WR.C18
